@@ -372,6 +372,7 @@ def run(ctx):
     ctx.assume("generated programs are well typed under the ONNX reading (typed grammar); the checker is only run on such programs")
     ctx.trust("harness/graphlit.py: printer from the real protos to OV.Graph.Syntax literals")
     ctx.check_props()
+    ctx.build(["Script/Corr.vo"])        # the model-side tie evaluates Script/Corr.v, which depends on the regenerated Gen/Analysis.v
     quick = ctx.tier == "quick"
     n_prog = 220 if quick else 3000
     rng = ctx.rng
